@@ -41,7 +41,7 @@ def scenario() -> Any:
         return d
 
     msg = cm.message(kinds=("async", "async", "async", "async", "sync", "bad", "unknown"),
-                     acks=("sync", "async", "future"), timeouts=(None, None, None, 0.3, 1, "0.35"), cleanups=(0, 0, 0, 0.2))
+                     acks=("sync", "async", "future", "deferred"), timeouts=(None, None, None, 0.3, 1, "0.35"), cleanups=(0, 0, 0, 0.2))
     return st.fixed_dictionaries({
         "A": st.integers(1, 4), "P": st.integers(0, 3),
         "ack_type": st.sampled_from(["when_received", "when_executed", "when_saved"]),
